@@ -89,12 +89,16 @@ PLAN = {
              "drift compensation loop",
     ),
     "C19": dict(
-        verus=[], kani=["@wire"], level="translation_validation",
-        claim="every #[derive(EtherCrabWire*)] type in /repo/src: the derive OUTPUT (the code that runs) is validated against a layout computed "
+        verus=[], kani=["@wire", "wire_impls"], level="translation_validation",
+        claim="every #[derive(EtherCrabWire*)] type in /repo/src AND a fixed corpus of 13 derive inputs that do not occur in the crate (enums with default / catch-all / "
+              "both / alternatives / 32-bit repr, bit and byte skips, nested enum and struct fields, array, 64-bit field, read-only struct with a skipped field): the derive OUTPUT (the code that runs) is validated against a layout computed "
               "independently from the #[wire] attributes, for all byte strings and all field values (Kani, loop-free, complete per type): field bit positions, "
-              "zero undeclared bits, unpack(pack(x)) round trip, short buffers are errors, enum fallbacks as declared",
-        note="the proc-macro program itself is not verified (its output is, per instance); generic types and write-only derives are skipped and listed; "
-             "the 'programs' quantifier is sampled by the in-repo types only (generated-layout corpus not built yet); ethercrab-wire/src/impls.rs not yet under contract",
+              "zero undeclared bits, unpack(pack(x)) round trip, short buffers are errors, enum fallbacks as declared (catch-all before default); the hand-written impls of ethercrab-wire/src/impls.rs for u8..u64, i8..i64, "
+              "bool, unit, [u8; 5], &[u8], [u16; 3] and a 3-tuple (Kani, every value and byte: pack = little endian, checked pack touches exactly its bytes, short buffers refused, "
+              "round trip)",
+        note="the proc-macro program itself is not verified (its output is, per instance); generic types and write-only derives are skipped and listed; the 'several hundred "
+             "generated definitions per run' of the quantifier are represented by the in-repo types plus the fixed corpus (a bounded stand-in for the space of layouts); "
+             "f32/f64, heapless::Vec/String impls are not under contract; KNOWN FINDING C19-A1: buffer() of arrays of multi-byte items is shorter than PACKED_LEN",
     ),
     "C14": dict(
         verus=["eeprom_range", "subdevice_eeprom", "eeprom_device"], kani=["eeprom_alias"], level="proof",
@@ -128,7 +132,9 @@ PLAN = {
              "mailbox_write_read (HeadersRaw, EmergencyData) are assumed to decode what their #[wire] attributes say (a harness cannot name a fn-local type); "
              "wait_for_mailboxes / wait_for_mailbox_response are extracted whole as well (rule R18): (read, write) mailbox pair in that order, stale-mailbox drain of at most 10 "
              "rounds, both polling loops inside their mailbox_echo / mailbox_response timeout scope (termination, assumption A-TIME-1), the reply is a checked read of exactly the read "
-             "mailbox's address and length; a reply left over from an earlier request with the same index/sub-index is not told apart (the counter is not compared); "
+             "mailbox's address and length; a reply left over from an earlier request with the same index/sub-index is not told apart (the counter is not compared); the sdo unit ASSUMES the documented contract "
+             "of EtherCrabWireSized::buffer() (PACKED_LEN bytes) - true for every impl except arrays of multi-byte items (known finding C19-A1: sdo_read into [u16; N] etc. is "
+             "refused as TooLong); "
              "other header wire layouts are the C19 harnesses",
     ),
     "C16": dict(
